@@ -364,6 +364,23 @@ def any_guard(test):
     ('all', ...) marker when it is an all-reduction (listed as wrong)."""
     t = test
     red = None
+    if isinstance(t, ast.Call) and dotted(t.func) in ("any", "all") and len(t.args) == 1 and isinstance(t.args[0], (ast.GeneratorExp, ast.ListComp)) \
+            and len(t.args[0].generators) == 1 and not t.args[0].generators[0].ifs and isinstance(t.args[0].generators[0].target, ast.Name):
+        # any(np.any(part > b) for part in parts): the same test on every member of a group of value arrays == the test on the group
+        g = t.args[0].generators[0]
+        inner = any_guard(t.args[0].elt)
+        if inner is None:
+            return None
+        red_i, lo, op_i, hi = inner
+        v = g.target.id
+        outer = dotted(t.func)
+        if red_i != outer:
+            return ("all", lo, op_i, hi) if "all" in (red_i, outer) else None
+        if dotted(peel(lo)[0]) == v and not any(isinstance(x, ast.Name) and x.id == v for x in ast.walk(hi)):
+            return (red_i, g.iter, op_i, hi)
+        if dotted(peel(hi)[0]) == v and not any(isinstance(x, ast.Name) and x.id == v for x in ast.walk(lo)):
+            return (red_i, lo, op_i, g.iter)
+        return None
     if isinstance(t, ast.Call):
         fn = dotted(t.func)
         if fn in ("np.any", "any", "numpy.any") and len(t.args) >= 1:
